@@ -37,6 +37,21 @@ def drop_tree_cache():
             pass
 
 
+def cleanup_after_abort():
+    """an aborted run (error while the package graph is generated or used) leaves its connection to the tree
+    cache open inside a transaction; the process would normally exit, here it goes on with the next case"""
+    import gc
+    import sqlite3
+    gc.collect()
+    for ob in gc.get_objects():
+        if isinstance(ob, sqlite3.Connection):
+            try:
+                ob.close()
+            except Exception:  # noqa
+                pass
+    drop_tree_cache()
+
+
 def make_recipes():
     from bob.input import RecipeSet
     from bob.cmds.jenkins.jenkins import jenkinsNameFormatter
@@ -157,13 +172,16 @@ def _scm_props(step, jenkins):
 
 
 def step_view(s, full, live=None, ident=False, ws_of=None):
-    """everything the builder reads from a step, as JSON-able data.  `s` is a StepIR (the decoded job
-    specification, or the LazyIR view the local builder uses); `live` is the bob.input step behind the
-    LazyIR view, asked directly where the two IR flavours legitimately differ (Jenkins pre-run commands,
-    SCM properties in Jenkins mode)"""
-    if not s.isValid():
+    """everything the builder reads from a step, as JSON-able data.  `s` is a StepIR: the decoded job
+    specification, or -- for the reference side -- the LazyIR view that the local builder uses, which is only
+    asked for what is *derived* in the IR classes (exec path, PATH lists).  Everything else of the
+    reference side is read from `live`, the bob.input step itself (the IR classes share their constructor,
+    so a value lost there would be lost on both sides)."""
+    src = live if live is not None else s
+    if not src.isValid():
         # never executed; all invalid steps without dependencies share one variant id (and one entry of the specification)
         return {"valid": False}
+
     def ref_ws(step):
         # a consumed step (sandbox, tool, argument): steps are shared by variant id, so any workspace that the
         # project assigns to a step of this variant id is a faithful choice
@@ -171,50 +189,57 @@ def step_view(s, full, live=None, ident=False, ws_of=None):
         if ws_of is not None and w in ws_of.get(step.getVariantId(), ()):
             return "<a workspace of %s>" % step.getVariantId().hex()[:8]
         return w
-    sb = s.getSandbox()
+    sb = src.getSandbox()
     if not full:
         # a dependency built by another job: the builder reads its variant id, workspace, relocatability and
         # whether it was built in a sandbox (bob/intermediate.py, "Partially dumped")
-        return {"variantId": s.getVariantId().hex(), "valid": True, "workspace": s.getWorkspacePath(),
-                "kind": [s.isCheckoutStep(), s.isBuildStep(), s.isPackageStep()],
-                "relocatable": s.isRelocatable(), "shared": s.isShared(), "sandbox": sb is not None,
+        return {"variantId": src.getVariantId().hex(), "valid": True, "workspace": src.getWorkspacePath(),
+                "kind": [src.isCheckoutStep(), src.isBuildStep(), src.isPackageStep()],
+                "relocatable": src.isRelocatable(), "shared": src.isShared(), "sandbox": sb is not None,
                 "execPath": s.getExecPath()}
     v = {
-        "variantId": s.getVariantId().hex(), "valid": s.isValid(), "workspace": s.getWorkspacePath(),
-        "kind": [s.isCheckoutStep(), s.isBuildStep(), s.isPackageStep()],
-        "relocatable": s.isRelocatable(), "shared": s.isShared(), "stablePaths": s.stablePaths(),
+        "variantId": src.getVariantId().hex(), "valid": src.isValid(), "workspace": src.getWorkspacePath(),
+        "kind": [src.isCheckoutStep(), src.isBuildStep(), src.isPackageStep()],
+        "relocatable": src.isRelocatable(), "shared": src.isShared(), "stablePaths": src.stablePaths(),
         "sandbox": None if sb is None else {"step": sb.getStep().getVariantId().hex(), "ws": ref_ws(sb.getStep()),
-                                            "paths": sb.getPaths(), "mounts": json.loads(json.dumps(sb.getMounts())),
+                                            "paths": list(sb.getPaths()), "mounts": json.loads(json.dumps(sb.getMounts())),
                                             "user": sb.getUser()},
         "execPath": s.getExecPath(),
     }
     if ident:
         # steps are shared by variant id: only the package step that was added to the job is tied to one package instance
-        v["package"] = s.getPackage().getName()
-        v["stack"] = list(s.getPackage().getStack())
-        v["recipe"] = s.getPackage().getRecipe().getName()
-    if full:
-        tools = s.getTools()
-        v.update({
-            "fingerprinted": s._isFingerprinted(), "digestScript": s.getDigestScript(),
-            "tools": {n: {"step": t.getStep().getVariantId().hex(), "ws": ref_ws(t.getStep()),
-                          "path": t.getPath(), "libs": list(t.getLibs())} for n, t in sorted(tools.items())},
-            "arguments": [[a.getVariantId().hex(), a.isValid(), ref_ws(a) if a.isValid() else None] for a in s.getArguments()],
-            "allDepSteps": [[a.getVariantId().hex(), a.isValid()] for a in s.getAllDepSteps()],
-            "env": dict(s.getEnv()), "paths": s.getPaths(), "libraryPaths": s.getLibraryPaths(),
-            "preRunCmds": (live or s).getJenkinsPreRunCmds(), "postRunCmds": s.getPostRunCmds(),
-            "setupScript": s.getSetupScript(), "mainScript": s.getMainScript(), "updateScript": s.getUpdateScript(),
-            "fingerprintScript": s._getFingerprintScript(), "jobServer": s.jobServer(), "label": s.getLabel(),
-            "deterministic": s.isDeterministic(), "updateDeterministic": s.isUpdateDeterministic(),
-            "netAccess": s.hasNetAccess(), "auditFileNames": json.loads(json.dumps(s.getAuditFileNames())),
-            "metaEnv": dict(s.getPackage().getMetaEnv()),
-            "layer": s.getPackage().getRecipe().getLayer(),
-            "language": s.getPackage().getRecipe().scriptLanguage.index.value,
-        })
-        if s.isCheckoutStep():
-            v["liveBuildId"] = s.hasLiveBuildId()
-            v["scmList"] = _scm_props(live or s, True)
-            v["scmDirs"] = {d: [h.hex(), p] for d, (h, p) in sorted(s.getScmDirectories().items())}
+        v["package"] = src.getPackage().getName()
+        v["stack"] = list(src.getPackage().getStack())
+        v["recipe"] = src.getPackage().getRecipe().getName()
+    tools = src.getTools()
+    if live is not None:
+        digest_env = dict(live._coreStep.digestEnv)
+        weak = sorted(live._coreStep.toolDepWeak)
+    else:
+        d = s.toData()
+        digest_env = dict(d.get("digestEnv", {"<missing>": ""}))
+        weak = sorted(d.get("toolKeysWeak", ["<missing>"]))
+    v.update({
+        "fingerprinted": src._isFingerprinted(), "digestScript": src.getDigestScript(),
+        "tools": {n: {"step": t.getStep().getVariantId().hex(), "ws": ref_ws(t.getStep()),
+                      "path": t.getPath(), "libs": list(t.getLibs())} for n, t in sorted(tools.items())},
+        "arguments": [[a.getVariantId().hex(), a.isValid(), ref_ws(a) if a.isValid() else None] for a in src.getArguments()],
+        "allDepSteps": [[a.getVariantId().hex(), a.isValid()] for a in src.getAllDepSteps()],
+        "env": dict(src.getEnv()), "paths": s.getPaths(), "libraryPaths": s.getLibraryPaths(),
+        "preRunCmds": src.getJenkinsPreRunCmds(), "postRunCmds": src.getPostRunCmds(),
+        "setupScript": src.getSetupScript(), "mainScript": src.getMainScript(), "updateScript": src.getUpdateScript(),
+        "fingerprintScript": src._getFingerprintScript(), "jobServer": src.jobServer(), "label": src.getLabel(),
+        "deterministic": src.isDeterministic(), "updateDeterministic": src.isUpdateDeterministic(),
+        "netAccess": src.hasNetAccess(), "auditFileNames": json.loads(json.dumps(src.getAuditFileNames())),
+        "metaEnv": dict(src.getPackage().getMetaEnv()),
+        "layer": src.getPackage().getRecipe().getLayer(),
+        "language": src.getPackage().getRecipe().scriptLanguage.index.value,
+        "digestEnv": digest_env, "toolKeysWeak": weak,
+    })
+    if src.isCheckoutStep():
+        v["liveBuildId"] = src.hasLiveBuildId()
+        v["scmList"] = _scm_props(src, True)
+        v["scmDirs"] = {d: [h.hex(), p] for d, (h, p) in sorted(src.getScmDirectories().items())}
     return v
 
 
@@ -456,22 +481,45 @@ def oracle(jobs, order_error, graph, steps, names):
     return out
 
 
-def classify(graph, names, absjobs):
-    """root cause of a failure: do two distinct abstract jobs of the name calculation share one Jenkins job name?"""
+def _natural_names(nodes, job):
+    """names a job can have before numbering: its recipe, its package name, the common dash-prefix"""
+    out = set(nodes[i]["recipe"] for i in job) | set(nodes[i]["name"] for i in job)
+    parts = [nodes[i]["name"].split("-") for i in job]
+    common = []
+    for col in zip(*parts):
+        if len(set(col)) != 1:
+            break
+        common.append(col[0])
+    out.add("-".join(common))
+    return out
+
+
+def classify(graph, names, absjobs, prefix=""):
+    """root cause of a failure: do two distinct abstract jobs of the name calculation share one Jenkins job name?
+    folded : different display names, same internal name (character / case folding)
+    numbered: same display name, one job has it as its plain name, the other got it from the numbering"""
     if not absjobs:
         return None
     nodes = graph["nodes"]
-    seen = {}
-    kind = None
+    by_iname = {}
     for a in absjobs:
         nm = names.get(nodes[a[0]]["vid"])
-        if not nm:
+        if nm:
+            by_iname.setdefault(nm[1], []).append((nm[0], a))
+    kind = None
+    for iname, lst in by_iname.items():
+        if len(lst) < 2:
             continue
-        if nm[1] in seen:
-            k = "numbered-job-name-collides" if seen[nm[1]] == nm[0] else "folded-job-names-collide"
-            kind = k if kind in (None, k) else "folded-job-names-collide"
+        if len(set(d for d, _ in lst)) > 1:
+            k = "folded-job-names-collide"
         else:
-            seen[nm[1]] = nm[0]
+            d = lst[0][0]
+            d = d[len(prefix):] if d.startswith(prefix) else d
+            plain = [a for _, a in lst if d in _natural_names(nodes, a)]
+            numbered = [a for _, a in lst if d not in _natural_names(nodes, a)]
+            k = "numbered-job-name-collides" if (plain and numbered and re.fullmatch(r".*-[0-9]+", d)) else "job-names-collide"
+        if kind is None or k == "job-names-collide" or (k == "folded-job-names-collide" and kind == "numbered-job-name-collides"):
+            kind = k
     return kind
 
 
@@ -504,6 +552,11 @@ def run_case(case, tmpdir):
             rootPackages.extend(packages.queryPackagePath(r))
         graph, steps, index = extract_graph([p.getPackageStep() for p in rootPackages])
     except BobError as e:
+        e.__traceback__ = None
+        if packages is not None:
+            packages.close()
+            packages = None
+        cleanup_after_abort()
         return dict(res, status="parse-error", error=str(e)[:200])
     finally:
         # the package graph cache is a single-writer database: release it before the real run
@@ -531,9 +584,7 @@ def run_case(case, tmpdir):
         e.__traceback__ = None
     if jobs is None:
         # the aborted run still holds the package graph cache (single writer): drop it
-        import gc
-        gc.collect()
-        drop_tree_cache()
+        cleanup_after_abort()
     names = {}
     # names straight from the calculator (also when genJenkinsJobs failed): the same class, fed like genJenkinsJobs does
     recorded = []
@@ -569,7 +620,7 @@ def run_case(case, tmpdir):
     except Exception:  # noqa
         absjobs = None
     res["abs"] = absjobs
-    res["clash"] = classify(graph, names, absjobs)
+    res["clash"] = classify(graph, names, absjobs, cfg.prefix)
     viol = []
     differ = graph.get("instances_differ")
     if jobs is None:
